@@ -1166,9 +1166,11 @@ void process_io () {
           
           if (evt->event_type & EVENT_READ)
             {
+              object_t *ob = ip->ob;
               get_user_data (ip, evt);
-              /* ip->ob may be invalid after get_user_data if object was destructed */
-              if (!ip->ob || (ip->ob->flags & O_DESTRUCTED) || ip->ob->interactive != ip)
+              /* ip may have been freed by get_user_data (end-of-file, read error or the object
+               * was destructed by LPC code); only the object can tell whether it is still valid */
+              if ((ob->flags & O_DESTRUCTED) || ob->interactive != ip)
                 {
                   continue;
                 }
